@@ -202,7 +202,7 @@ package transport
 //@ trusted (*sync.Mutex).Unlock()
 //@   nopanic
 //@   pure
-//@ func (SSE).Do [C03,C10,C05,C12]
+//@ func (SSE).Do [C03,C10,C05,C12,C04]
 //@   stable sseConnection.keepAliveTicker
 //@   loop 1: invariant c != nil && (t.KeepAlivePingInterval > 0 ==> c.keepAliveTicker != nil)
 //@   ghost held = false
@@ -229,8 +229,11 @@ package transport
 // the keep-alive goroutine is stopped on every exit after it was started (also when the executor panics)
 //@   onexit calls(spawn) >= 1 ==> calls(stopKeepAlive) + calls(close) >= 1
 //@   ghost drained = false
-//@   at `responses(ctx)` ghost drained = callres0 == nil
+//@   at `nextResponse(ctx, exec, rc, responses)` ghost drained = callres0 == nil
 //@   ensures @C05 calls(DispatchOperation) >= 1 ==> drained
+// C04/C12 (D30): once the stream has started the response handler (user code runs in there while values are
+// serialized) is only ever called through nextResponse, which contains its panics - never directly
+//@   callsite type=graphql.ResponseHandler: requires false
 //@   requires r != nil && w != nil && exec != nil
 //@   safe
 //@   at `exec.CreateOperationContext(ctx, params)` requires params != nil
@@ -239,6 +242,26 @@ package transport
 //@   ensures calls(DispatchOperation) <= 1
 //@   replay transportNullBody.go.tmpl for CreateOperationContext
 //@   replay httpContentType.go.tmpl for writeHeaders
+
+// ---------------------------------------------------------------- streamed transports: one response at a time
+// C04 "a panic raised while serializing a value fails only that response with a well-formed error body", C12 framing:
+// the handler is called exactly once; its panic never escapes, runs the recover hook once and becomes an error
+// response built by the executor (presenter, response interceptors); otherwise the handler's response is passed on.
+//@ trusted github.com/vektah/gqlparser/v2/gqlerror.WrapIfUnwrapped(err) (e)
+//@   nopanic
+//@   pure
+//@ func nextResponse [C04,C12,C09,C05]
+//@   requires rc != nil && exec != nil && responses != nil
+//@   noescape
+//@   ghost got = nil
+//@   ghost made = nil
+//@   at `responses(ctx)` ghost got = callres0
+//@   at `exec.DispatchError(ctx, gqlerror.List{gqlErr})` ghost made = callres0
+//@   at `exec.DispatchError(ctx, gqlerror.List{gqlErr})` assumenopanic the error presenter and the response interceptors (user code) do not panic while an error is reported
+//@   ensures calls(ResponseHandler) == 1
+//@   ensures panicked ==> calls(Recover) == 1 && calls(DispatchError) == 1 && res0 == made
+//@   ensures !panicked ==> calls(Recover) == 0 && calls(DispatchError) == 0 && res0 == got
+//@   replay latePanicStream.go.tmpl
 
 // ---------------------------------------------------------------- multipart/mixed
 //@ trusted (net/http.Flusher).Flush()
@@ -250,10 +273,11 @@ package transport
 //@ trusted (time.Duration).Milliseconds() (ms)
 //@   nopanic
 //@   pure
-//@ func (MultipartMixed).Do [C03,C10,C05]
+//@ func (MultipartMixed).Do [C03,C10,C05,C12,C04]
 //@   ghost drained = false
-//@   at `responses(ctx)` ghost drained = callres0 == nil
+//@   at `nextResponse(ctx, exec, rc, responses)` ghost drained = callres0 == nil
 //@   ensures @C05 calls(DispatchOperation) >= 1 ==> drained
+//@   callsite type=graphql.ResponseHandler: requires false
 //@   requires r != nil && w != nil && exec != nil
 //@   safe
 //@   at `exec.CreateOperationContext(ctx, params)` requires params != nil
